@@ -222,6 +222,10 @@ def readSingleBlocks (cap : Nat) : Nat → Nat → List Nat
 the current block with what it holds — nothing, if the last record just filled a block. -/
 def streamBlocks (cap n : Nat) : List Nat := List.replicate (n / cap) cap ++ [n % cap]
 
+/-- `PRead::Run` (io.cc:29-48) on a file of `n` records: full blocks while more than a block
+remains, then the rest if there is any — nothing at all for an empty file -/
+def preadBlocks (cap n : Nat) : List Nat := if n = 0 then [] else readSingleBlocks cap n n
+
 /-- blocks the consumer of `Sort::Output` sees: none for empty input (poison only), `ReadSingle`
 for a single run, the merging stream otherwise -/
 def outputBlocks (cap nruns nout : Nat) : List Nat :=
